@@ -17,8 +17,8 @@ pub fn def02() -> PropDef {
     PropDef {
         info: PropInfo {
             id: "C02",
-            rule: "layouts: packet of 0-64 bytes and metadata buffer absent or 8-64 bytes, each placed start- or end-against a PROT_NONE page; 0-3 registered ranges of 1-32 bytes inside a canary-filled arena. probes: one access instruction {ldx, st, stx, xadd, ldabs, ldind} x width {1,2,4,8} whose effective address is a region boundary (start or end of packet / metadata / each range / the stack) plus a delta in [-9,+9], or 0, 1, u64::MAX-k, a base+offset sum that wraps past 2^64, or a far address; base value and displacement are split randomly between register and 16-bit offset (imm+src for ldind). Oracle (computed from the real addresses inside the child): allowed <=> all bytes inside exactly one region (and naturally aligned for xadd); allowed => Ok with the exact loaded value / exactly the stored bytes changed; refused => Err (never a panic or signal) and no byte of packet, metadata, arena or canaries changed. The thorough tier additionally enumerates every (region boundary, delta, kind, width) combination for fixed layouts. Non-trivial = effective address within 9 bytes of a region boundary, or wrapped; distinct by hash of layout+probe.",
-            assumptions: &["the interpreter's stack is reached through r10-relative probes (its absolute address is unknown); loads from it only have to succeed", "registered ranges do not touch each other or the other regions"],
+            rule: "layouts: packet of 0-64 bytes and metadata buffer absent or 8-64 bytes, each placed start- or end-against a PROT_NONE page; 0-3 registered ranges of 1-32 bytes inside a canary-filled arena, some separated by holes of only 1-7 bytes. probes: one access instruction {ldx, st, stx, xadd, ldabs, ldind} x width {1,2,4,8} whose effective address is a region boundary (start or end of packet / metadata / each range / the stack) plus a delta in [-9,+9], or 0, 1, u64::MAX-k, a base+offset sum that wraps past 2^64, or a far address; base value and displacement are split randomly between register and 16-bit offset (imm+src for ldind). Oracle (computed from the real addresses inside the child): allowed <=> all bytes inside exactly one region (and naturally aligned for xadd); allowed => Ok with the exact loaded value / exactly the stored bytes changed; refused => Err (never a panic or signal) and no byte of packet, metadata, arena or canaries changed. The thorough tier additionally enumerates every (region boundary, delta, kind, width) combination for fixed layouts. Non-trivial = effective address within 9 bytes of a region boundary, or wrapped; distinct by hash of layout+probe.",
+            assumptions: &["the interpreter's stack is reached through r10-relative probes (its absolute address is unknown); loads from it only have to succeed", "registered ranges never touch or overlap each other or the other regions (holes of 1-7 bytes between two ranges are generated on purpose)"],
         },
         run: run02,
         replay: replay02,
@@ -45,8 +45,10 @@ pub struct Layout {
     pkt_at_end: bool,
     mbuff_len: u8,
     mbuff_at_end: bool,
-    /// (position selector, length) of registered ranges inside the canary arena
-    ranges: Vec<(u8, u8)>,
+    /// (position selector, length, gap) of registered ranges inside the canary arena; gap > 0
+    /// places the range `gap` bytes after the end of the previous one (a hole of 1-7 bytes
+    /// between two registered ranges), gap == 0 gives it a slot of its own
+    ranges: Vec<(u8, u8, u8)>,
     fill: u8,
 }
 
@@ -81,7 +83,7 @@ pub struct Probe {
 }
 
 fn layout(with_ranges: bool) -> impl Strategy<Value = Layout> {
-    let ranges = if with_ranges { prop::collection::vec((any::<u8>(), 1u8..33), 0..4).boxed() } else { Just(vec![]).boxed() };
+    let ranges = if with_ranges { prop::collection::vec((any::<u8>(), 1u8..33, prop_oneof![2 => Just(0u8), 1 => 1u8..8]), 0..4).boxed() } else { Just(vec![]).boxed() };
     (prop_oneof![1 => Just(0u8), 5 => 1u8..65], any::<bool>(), prop_oneof![1 => Just(0u8), 3 => 8u8..65], any::<bool>(), ranges, any::<u8>())
         .prop_map(|(pkt_len, pkt_at_end, mbuff_len, mbuff_at_end, ranges, fill)| Layout { pkt_len, pkt_at_end, mbuff_len, mbuff_at_end, ranges, fill })
 }
@@ -154,9 +156,15 @@ impl Mem {
         let m = if l.mbuff_len == 0 { (1u64, 0u64) } else { (self.mbuff.place(l.mbuff_len as usize, l.mbuff_at_end) as u64, l.mbuff_len as u64) };
         regs.push(m);
         // ranges: non-touching slots of 96 bytes inside the arena page, away from its edges
-        for (k, (pos, len)) in l.ranges.iter().enumerate() {
+        let mut prev_end: Option<u64> = None;
+        for (k, (pos, len, gap)) in l.ranges.iter().enumerate() {
             let slot = 256 + k as u64 * 1024 + (*pos as u64 % 8) * 96;
-            regs.push((self.ranges.data_start() as u64 + slot + (*pos as u64 >> 3) % 17, *len as u64));
+            let start = match (prev_end, *gap) {
+                (Some(e), g) if g > 0 => e + g as u64,
+                _ => self.ranges.data_start() as u64 + slot + (*pos as u64 >> 3) % 17,
+            };
+            regs.push((start, *len as u64));
+            prev_end = Some(start + *len as u64);
         }
         Regions { regs }
     }
@@ -571,7 +579,7 @@ fn case_from_json(v: &Value) -> Option<(Layout, Probe)> {
         pkt_at_end: lj["pkt_at_end"].as_bool()?,
         mbuff_len: lj["mbuff_len"].as_u64()? as u8,
         mbuff_at_end: lj["mbuff_at_end"].as_bool()?,
-        ranges: lj["ranges"].as_array()?.iter().map(|r| (r[0].as_u64().unwrap_or(0) as u8, r[1].as_u64().unwrap_or(1) as u8)).collect(),
+        ranges: lj["ranges"].as_array()?.iter().map(|r| (r[0].as_u64().unwrap_or(0) as u8, r[1].as_u64().unwrap_or(1) as u8, r[2].as_u64().unwrap_or(0) as u8)).collect(),
         fill: lj["fill"].as_u64()? as u8,
     };
     let pj = &v["probe"];
@@ -649,10 +657,10 @@ fn drive(ctx: &Ctx, eng: Eng, quick: u64, thorough: u64) {
     if ctx.tier == Tier::Thorough {
         // exhaustive window: every (region boundary, delta, kind, width) for fixed layouts
         let layouts = [
-            Layout { pkt_len: 17, pkt_at_end: true, mbuff_len: 24, mbuff_at_end: false, ranges: vec![(3, 5), (200, 32)], fill: 7 },
-            Layout { pkt_len: 0, pkt_at_end: true, mbuff_len: 0, mbuff_at_end: false, ranges: vec![(9, 1)], fill: 9 },
+            Layout { pkt_len: 17, pkt_at_end: true, mbuff_len: 24, mbuff_at_end: false, ranges: vec![(3, 5, 0), (200, 32, 3)], fill: 7 },
+            Layout { pkt_len: 0, pkt_at_end: true, mbuff_len: 0, mbuff_at_end: false, ranges: vec![(9, 1, 0)], fill: 9 },
             Layout { pkt_len: 64, pkt_at_end: false, mbuff_len: 8, mbuff_at_end: true, ranges: vec![], fill: 1 },
-            Layout { pkt_len: 1, pkt_at_end: true, mbuff_len: 64, mbuff_at_end: true, ranges: vec![(77, 8), (1, 9), (130, 16)], fill: 3 },
+            Layout { pkt_len: 1, pkt_at_end: true, mbuff_len: 64, mbuff_at_end: true, ranges: vec![(77, 8, 0), (1, 9, 1), (130, 16, 7)], fill: 3 },
         ];
         let kinds = [Kind2::Ldx, Kind2::St, Kind2::Stx, Kind2::Xadd, Kind2::LdAbs, Kind2::LdInd];
         let mut n = 0u64;
